@@ -11,14 +11,14 @@ PLAN = {
     "C03": {"drivers": ["classes"], "models": ["class"]},
     "C04": {"drivers": ["icase-words", "icase-sweep"], "models": ["fold"]},
     "C05": {"drivers": ["small-rep", "repeats"], "models": ["rep", "repconv"]},
-    "C06": {"drivers": ["presentation", "char-classes"], "models": ["lang"]},
-    "C07": {"drivers": ["lattice", "front:hist", "front:large"], "models": ["builder-rust"]},
+    "C06": {"drivers": ["presentation", "char-classes"], "models": ["lang", "verbose"]},
+    "C07": {"drivers": ["lattice", "char-classes", "front:hist", "front:large"], "models": ["builder-rust"]},
     "C08": {"models": ["pipeline"], "drivers": ["small-anchors", "anchors"]},
     "C09": {"drivers": ["class-sweep"], "models": ["class"]},
     "C10": {"drivers": ["orders", "front:hist"], "models": ["builder-rust"]},
     "C11": {"drivers": ["escape-words", "front:escsweep"], "models": ["front-laws"]},
     "C12": {"drivers": ["front:cli"], "models": ["front-laws"]},
-    "C13": {"drivers": ["thresholds"], "models": ["rep", "repconv"]},
+    "C13": {"drivers": ["thresholds", "front:hist"], "models": ["rep", "repconv"]},
     "C14": {"drivers": ["front:py"], "models": ["builder-py", "front-laws"]},
     "C15": {"drivers": ["color"], "models": ["front-laws"]},
     "C16": {"models": ["pipeline", "rep"], "drivers": ["small", "stages"]},
@@ -86,6 +86,12 @@ def check(prop, tier, seed):
     for d in drivers:
         vlib.run_driver(res, known, d, tier, seed)
     c = res.counters
+    if any(k.startswith("l2-") for k in c):
+        res.extra["level2_conformance"] = {
+            "tries_identical_to_transcription": c.get("l2-trie-same", 0), "tries_different": c.get("l2-trie-diff", 0),
+            "minimised_automata_identical_to_transcription": c.get("l2-min-same", 0), "minimised_automata_different": c.get("l2-min-diff", 0),
+            "expressions_identical_to_transcription": c.get("l2-expr-same", 0), "expressions_different": c.get("l2-expr-diff", 0),
+            "note": "recorded automaton compared structurally with Algo!BuildTrie / Algo!Minimize on the recorded clusters (fidelity of Level 2, never a verdict)"}
     keys, what = NONTRIVIAL[prop]
     res.nontrivial = sum(c.get(k, 0) for k in keys)
     res.rule = ("evaluations = executions of the real code (library builds / CLI processes / binding calls); cases are generated by "
@@ -96,7 +102,7 @@ def check(prop, tier, seed):
     return vlib.finish(res, t0, assumptions=ASSUME)
 
 
-PIPE_INV = ["SortInv", "TrieInv", "MinInv", "ElimInv", "FinalInv", "AnchorInv", "SymbolicInv", "Replay"]
+PIPE_INV = ["SortInv", "TrieInv", "MinInv", "ElimStepInv", "ElimInv", "FinalInv", "AnchorInv", "SymbolicInv", "Replay"]
 
 
 def model_pipeline(res, known, tier, seed):
@@ -396,7 +402,22 @@ def model_lang(res, known, tier, seed):
                        "invariants": LANG_INV})
 
 
-MODELS = {"repconv": model_repconv, "lang": model_lang, "fold": model_fold, "front-laws": model_front_laws, "class": model_class, "rep": model_rep, "pipeline": model_pipeline, "builder-rust": model_builder("rust"), "builder-py": model_builder("py"),
+def model_verbose(res, known, tier, seed):
+    """MC_Verbose: verbose-mode escaping at the token level; the rule before the D4 repair must be refuted."""
+    consts = {"MaxLen": 5 if tier == "thorough" else 4, "Mode": '"fixed"'}
+    m = vlib.run_model("Verbose", constants=consts, invariants=["Exact", "RawIsWrong"], tag="verbose_fixed", workers=4)
+    if m["violated"]:
+        raise ToolError("bounded model verbose_fixed violates %s" % m["violated"])
+    neg = vlib.run_model("Verbose", constants={"MaxLen": 1, "Mode": '"widen"'}, invariants=["Exact"], tag="verbose_widen", workers=2)
+    if "Exact" not in neg["violated"]:
+        raise ToolError("negative control: the pre-repair verbose rule was not refuted by TLC")
+    res.states += m["states"] + neg["states"]
+    res.transitions += m["transitions"] + neg["transitions"]
+    res.models.append({"model": "MC_Verbose", "constants": consts, "states": m["states"], "transitions": m["transitions"],
+                       "invariants": ["Exact", "RawIsWrong"], "negative_control": "Mode=widen refuted by TLC"})
+
+
+MODELS = {"verbose": model_verbose, "repconv": model_repconv, "lang": model_lang, "fold": model_fold, "front-laws": model_front_laws, "class": model_class, "rep": model_rep, "pipeline": model_pipeline, "builder-rust": model_builder("rust"), "builder-py": model_builder("py"),
           "builder-wasm": model_builder("wasm")}
 
 
